@@ -131,7 +131,14 @@ def run(prop, tier, seed):
     for monitor in sorted({g[0] for g in groups}):
         traces = [t for g in groups if g[0] == monitor for t in g[2]]
         optof = {t: g[1] for g in groups if g[0] == monitor for t in g[2]}
-        v, c, tot, _ = vlib.validate_traces(wd, SPECDIRS, monitor, traces)
+        try:
+            v, c, tot, _ = vlib.validate_traces(wd, SPECDIRS, monitor, traces)
+        except vlib.Inconclusive as e:
+            # seen once in ~40 runs on a heavily loaded box: TLC exited 0 without a verdict file for a
+            # trace that validates fine when repeated (not reproducible); repeat the group once
+            vlib.log("[validate] %s: %s -- repeating once" % (monitor, str(e).split("\n")[0]))
+            notes.append("trace validation with %s was repeated once (%s)" % (monitor, str(e).split("\n")[0]))
+            v, c, tot, _ = vlib.validate_traces(wd, SPECDIRS, monitor, traces)
         for x in v:
             x["monitor"], x["opt"] = monitor, optof[x["trace_file"]]
         viol += v
